@@ -730,7 +730,65 @@ func ruleReloadDeletesOnlyForeign(c *Ctx, rule string) {
 		}
 	})
 	if len(flags) == 0 {
-		c.undecided(rule, fn, "'found in a configured pool' flag", nil, "no boolean set to true together with the insertion into the rebuilt table under a Contains guard")
+		// flag-less form (e.g. `continue outer` after the insert): decided on the CFG alone
+		contains := guardEdges(fn, predCall("(*FloatingIPPool).Contains", nil))
+		var inserts []ssa.Instruction
+		allInstrs(fn, func(in ssa.Instruction) {
+			if mu, ok := in.(*ssa.MapUpdate); ok && typeNameOf(mu.Value.Type()) == "FloatingIP" && guardedBy(fn, mu, contains) {
+				if loopHeaderOf(mu) != nil {
+					inserts = append(inserts, mu)
+				}
+			}
+		})
+		if len(inserts) == 0 {
+			c.undecided(rule, fn, "'found in a configured pool' decision", nil, "neither a boolean flag set together with the insertion into the rebuilt table, nor an insertion inside the search loop under a Contains guard")
+			return
+		}
+		hin := loopHeaderOf(inserts[0])
+		var hout *ssa.BasicBlock
+		for _, h := range fn.Blocks {
+			if h != hin && h.Dominates(hin) {
+				for _, pp := range h.Preds {
+					if h.Dominates(pp) && blockReaches(hin, pp) {
+						if hout == nil || hout.Dominates(h) {
+							hout = h
+						}
+					}
+				}
+			}
+		}
+		var exitEdges []edge
+		if iff, ok := hin.Instrs[len(hin.Instrs)-1].(*ssa.If); ok {
+			loop := naturalLoop(hin)
+			for i, sct := range iff.Block().Succs {
+				if !loop[sct] {
+					exitEdges = append(exitEdges, edge{hin, i})
+				}
+			}
+		}
+		for _, a := range appends {
+			okEx := len(exitEdges) > 0 && !reachFromEntry(fn, newCut().edge(exitEdges...)).has(a)
+			c.ob(rule, fn, "an object is classified 'in no configured pool' only after every pool was tried", a, okEx, "the append to the deletion list is reachable only through the exhaustion edge of the search loop")
+			okIns := hout != nil
+			for _, ins := range inserts {
+				if hout != nil && c.reachAfter(ins, newCut().instr(hout.Instrs[0])).has(a) {
+					okIns = false
+				}
+			}
+			c.ob(rule, fn, "object queued for deletion only if no configured pool contains it", a, okIns, "within one iteration over the stored objects the append is unreachable after the insertion into the rebuilt table")
+		}
+		for _, d := range dels {
+			arg := callArgs(d)[0]
+			fromList := dependsOn(arg, func(v ssa.Value) bool {
+				call, ok := v.(*ssa.Call)
+				if !ok {
+					return false
+				}
+				b, ok := call.Call.Value.(*ssa.Builtin)
+				return ok && b.Name() == "append"
+			})
+			c.ob(rule, fn, "deleteFloatingIP receives names from the deletion list only", d, fromList, "argument flows from the appended slice")
+		}
 		return
 	}
 	// the search over the configured pools gives up only on exhaustion: the flag can be false at the loop exit only
@@ -1182,4 +1240,28 @@ func ruleExactKeyQueries(c *Ctx, rule string) {
 	if n < 4 {
 		c.undecided(rule, nil, "ByPrefix callers", nil, fmt.Sprintf("expected at least 4 ByPrefix call sites, found %d", n))
 	}
+}
+
+// naturalLoop: the blocks of the natural loop(s) with header h (h plus every block that reaches a back-edge source
+// without passing h).
+func naturalLoop(h *ssa.BasicBlock) map[*ssa.BasicBlock]bool {
+	loop := map[*ssa.BasicBlock]bool{h: true}
+	var work []*ssa.BasicBlock
+	for _, p := range h.Preds {
+		if h.Dominates(p) && !loop[p] {
+			loop[p] = true
+			work = append(work, p)
+		}
+	}
+	for len(work) > 0 {
+		b := work[len(work)-1]
+		work = work[:len(work)-1]
+		for _, p := range b.Preds {
+			if !loop[p] {
+				loop[p] = true
+				work = append(work, p)
+			}
+		}
+	}
+	return loop
 }
